@@ -71,6 +71,34 @@ func checkRoundTrip(c roundTripCase) (msg string, err error) {
 	if !e1 || !e2 {
 		return fmt.Sprintf("ParseNodeID(%q) is not Equal to the original (parsed.Equal(orig)=%v orig.Equal(parsed)=%v)", s, e1, e2), nil
 	}
+	// A parsed NodeID belongs to its caller: changing it must not change what a
+	// second and a third parse of the same text yield (added after seeded
+	// change C04-C, a memoised ParseNodeID that hands out one shared pointer).
+	var p2, p3 *ua.NodeID
+	var err2, err3 error
+	if m := guarded("ParseNodeID (repeated)", func() {
+		p2, err2 = ua.ParseNodeID(s)
+		if err2 != nil {
+			return
+		}
+		// whatever setter applies to the identifier type; errors are irrelevant
+		_ = p.SetNamespace(p.Namespace() ^ 1)
+		_ = p.SetIntID(p.IntID() + 1)
+		_ = p.SetStringID(p.StringID() + "x")
+		ua.NewExpandedNodeID(p, "urn:other", 7)
+		p3, err3 = ua.ParseNodeID(s)
+	}); m != "" {
+		return m, nil
+	}
+	if err2 != nil || err3 != nil {
+		return fmt.Sprintf("ParseNodeID(%q) succeeded once and failed when repeated: %v / %v", s, err2, err3), nil
+	}
+	if d := denotes(p2, c.ID); d != "" {
+		return fmt.Sprintf("after the result of an earlier ParseNodeID(%q) was modified, the result of a second parse (taken before the modification) denotes another node: %s", s, d), nil
+	}
+	if d := denotes(p3, c.ID); d != "" {
+		return fmt.Sprintf("after the result of an earlier ParseNodeID(%q) was modified, a fresh parse of the same text yields another node: %s", s, d), nil
+	}
 	return "", nil
 }
 
